@@ -2360,6 +2360,12 @@ class TupleParser:
         if val is None:
             return None
 
+        if not isinstance(val, str):
+            raise CIMXMLParseError(
+                _format("Invalid value for an embedded object: {0!A} (must "
+                        "be a string)", val),
+                conn_id=self.conn_id)
+
         # Perform the un-embedding (may raise XMLParseError)
         tup_tree = xml_to_tupletree_sax(val, "embedded object", self.conn_id)
 
